@@ -581,11 +581,80 @@ class Specialiser:
         return [node], all(f == "return" for _, _, f in arms) and f_other == "return"
 
 
+def _callable_ref(sp, e):
+    """expression denotes a function of the repository: self.method / cls.method / Class.method / module function / lambda"""
+    if isinstance(e, ast.Lambda):
+        return True
+    if isinstance(e, ast.Attribute) and isinstance(e.value, ast.Name) and sp.fi.cls is not None and e.value.id in ("self", "cls", sp.fi.cls.name):
+        return any(e.attr in c.methods for c in sp.repo.mro(sp.fi.cls))
+    if isinstance(e, ast.Name):
+        return sp._is_function_name(e.id) and not sp._assigned_locally(e.id)
+    return False
+
+
+def devirtualise(sp, stmts):
+    """`f = self.a if c else self.b` (normalised to an if/else assigning f) followed by a statement that calls f(...) becomes
+    `if c: <statement calling self.a(...)> else: <statement calling self.b(...)>`: the call through a variable is resolved per branch.
+    Applies when f is assigned nowhere else in the function and the test's names are not re-assigned in between."""
+    out = []
+    i = 0
+    while i < len(stmts):
+        s = stmts[i]
+        # recurse into compound statements first
+        if not isinstance(s, (ast.FunctionDef, ast.AsyncFunctionDef, ast.ClassDef)):
+            for fld in ("body", "orelse", "finalbody"):
+                blk = getattr(s, fld, None)
+                if isinstance(blk, list) and blk and isinstance(blk[0], ast.stmt):
+                    s = copy.copy(s)
+                    setattr(s, fld, devirtualise(sp, blk))
+        ok = isinstance(s, ast.If) and s.orelse and isinstance(s.body[-1], ast.Assign) and isinstance(s.orelse[-1], ast.Assign) \
+            and len(s.body[-1].targets) == 1 and isinstance(s.body[-1].targets[0], ast.Name) and len(s.orelse[-1].targets) == 1 \
+            and isinstance(s.orelse[-1].targets[0], ast.Name) and s.body[-1].targets[0].id == s.orelse[-1].targets[0].id \
+            and _callable_ref(sp, s.body[-1].value) and _callable_ref(sp, s.orelse[-1].value)
+        if ok:
+            f = s.body[-1].targets[0].id
+            stores = [n for n in _walk_local(sp.fi.node) if isinstance(n, ast.Name) and n.id == f and isinstance(n.ctx, ast.Store)]
+            tnames = {n.id for n in ast.walk(s.test) if isinstance(n, ast.Name)}
+            if len(stores) == 2:
+                rest = list(stmts[i + 1:])
+                new_rest, changed, blocked = [], False, False
+                for r in rest:
+                    uses = [n for n in ast.walk(r) if isinstance(n, ast.Name) and n.id == f and isinstance(n.ctx, ast.Load)]
+                    calls = [n for n in ast.walk(r) if isinstance(n, ast.Call) and isinstance(n.func, ast.Name) and n.func.id == f]
+                    if uses and not blocked and len(uses) == len(calls) and isinstance(r, (ast.Assign, ast.Return, ast.Expr, ast.AugAssign, ast.AnnAssign)):
+                        def with_ref(ref):
+                            class T(ast.NodeTransformer):
+                                def visit_Call(self, n):
+                                    self.generic_visit(n)
+                                    if isinstance(n.func, ast.Name) and n.func.id == f:
+                                        n.func = copy.deepcopy(ref)
+                                    return n
+                            return T().visit(copy.deepcopy(r))
+                        new_rest.append(ast.copy_location(ast.If(test=copy.deepcopy(s.test), body=[with_ref(s.body[-1].value)], orelse=[with_ref(s.orelse[-1].value)]), r))
+                        changed = True
+                    else:
+                        if uses:
+                            blocked = True
+                        new_rest.append(r)
+                    if any(isinstance(n, ast.Name) and n.id in tnames and isinstance(n.ctx, ast.Store) for n in ast.walk(r)):
+                        blocked = True
+                if changed and not any(isinstance(n, ast.Name) and n.id == f and isinstance(n.ctx, ast.Load) for r in new_rest for n in ast.walk(r)
+                                       if not (isinstance(r, ast.If))) :
+                    sp.changed = True
+                    out.append(s)
+                    out.extend(new_rest)
+                    return out
+        out.append(s)
+        i += 1
+    return out
+
+
 def specialise_function(repo, fi):
     """-> new FunctionDef with table-driven dispatch made explicit, or None if nothing applies"""
     sp = Specialiser(repo, fi)
     try:
-        body = sp.rewrite_block(list(fi.node.body), {})
+        body = devirtualise(sp, list(fi.node.body))
+        body = sp.rewrite_block(body, {})
     except (GiveUp, RecursionError):
         return None
     if not sp.changed:
